@@ -69,4 +69,23 @@ def fresh(task):
     X0 = X.copy()
     y = evaluate(pid, X, 1234 + variant)
     rows = [float(evaluate(pid, X[i:i + 1].copy(), 1234 + variant)[0]) for i in range(len(X))] if pid not in NOISY else None
-    return {"task": list(task), "y": [float(v) for v in y], "rows": rows, "x_modified": not np.array_equal(X, X0)}
+    # "all batch sizes": degenerate batches (1 row, 2 rows, exactly D rows, D+1 rows) of the same points, row by row
+    sub = []
+    if pid not in NOISY:
+        rs = np.random.RandomState(zlib.crc32(f"sub:{pid}:{D}:{variant}:{seed}".encode()) % (2 ** 31))
+        lo, hi = float(problems_dict[pid]["bounds"][0]), float(problems_dict[pid]["bounds"][1])
+        for n in sorted({1, 2, 3, D, D + 1} if D <= 10 else {1, 2, 3}):
+            B = rs.uniform(lo, hi, size=(n, D))
+            yb = evaluate(pid, B.copy(), 0)
+            alone = [float(evaluate(pid, B[i:i + 1].copy(), 0)[0]) for i in range(n)]
+            gap = max(abs(a - b) / max(1.0, abs(b)) for a, b in zip(yb, alone)) if len(yb) == n else float("inf")
+            sub.append({"n": n, "gap": float(gap), "row0": B[0].tolist() if gap > 1e-9 else None})
+    # noisy problems: the documented noise never takes a value below the optimum (many draws)
+    noisy_min = None
+    if pid in NOISY and D <= 10:
+        rs = np.random.RandomState(zlib.crc32(f"noise:{pid}:{D}:{variant}:{seed}".encode()) % (2 ** 31))
+        lo, hi = float(problems_dict[pid]["bounds"][0]), float(problems_dict[pid]["bounds"][1])
+        B = rs.uniform(lo, hi, size=(1500, D))
+        noisy_min = float(np.min(evaluate(pid, B, 4321 + variant + seed)))
+    return {"task": list(task), "y": [float(v) for v in y], "rows": rows, "x_modified": not np.array_equal(X, X0),
+            "sub": sub, "noisy_min": noisy_min}
